@@ -16,6 +16,7 @@ Section Ind.
   Hypothesis Hconst : forall v, P (NConst v).
   Hypothesis Htuple : forall ms, P (NTuple ms).
   Hypothesis Hbin : forall o ln rn l r, P l -> P r -> P (NBin o ln rn l r).
+  Hypothesis Hun : forall o nm c, P c -> P (NUn o nm c).
   Hypothesis Hmodel : forall cls ctor attrs, Forall (fun a => P (snd a)) attrs -> P (NModel cls ctor attrs).
   Hypothesis Hcoll : forall attrs, Forall (fun a => P (snd a)) attrs -> P (NColl attrs).
 
@@ -25,6 +26,7 @@ Section Ind.
     | NConst v => Hconst v
     | NTuple ms => Htuple ms
     | NBin o ln rn l r => Hbin o ln rn l r (level_ind l) (level_ind r)
+    | NUn o nm c => Hun o nm c (level_ind c)
     | NModel cls ctor attrs =>
         Hmodel cls ctor attrs ((fix go (a : list (string * node V)) : Forall (fun a => P (snd a)) a :=
                                   match a with
@@ -43,15 +45,16 @@ End Ind.
 Section P2.
   Variable V : Type.
   Variable bin : binop -> V -> V -> V.
+  Variable un : unop -> V -> V.
   Variable bin_ok : binop -> V -> V -> bool.
   Variable ltb leb : V -> V -> bool.
   Variable of_bool : bool -> V.
   Variable args : nat -> option V.
-  Notation holds := (holds V bin bin_ok ltb leb of_bool args).
-  Notation all_hold := (all_hold V bin bin_ok ltb leb of_bool args).
-  Notation check_all := (check_all V bin bin_ok ltb leb of_bool args).
-  Notation check_level := (check_level V bin bin_ok ltb leb of_bool args).
-  Notation status := (status V bin bin_ok ltb leb of_bool args).
+  Notation holds := (holds V bin un bin_ok ltb leb of_bool args).
+  Notation all_hold := (all_hold V bin un bin_ok ltb leb of_bool args).
+  Notation check_all := (check_all V bin un bin_ok ltb leb of_bool args).
+  Notation check_level := (check_level V bin un bin_ok ltb leb of_bool args).
+  Notation status := (status V bin un bin_ok ltb leb of_bool args).
   Notation levels := (levels V).
   Notation here := (here V).
   Notation below := (below V).
@@ -59,7 +62,7 @@ Section P2.
   Notation is_level := (is_level V).
   Notation is_tuple := (is_tuple V).
 
-  (* ---------- paths that lead to a level (Model, Collection, CompoundPrior) of the tree ---------- *)
+  (* ---------- paths that lead to a level (Model, Collection, CompoundPrior, ModifiedPrior) of the tree ---------- *)
   Fixpoint level_at (p : path) (n : node V) : bool :=
     match p with
     | [] => is_level n
@@ -67,6 +70,7 @@ Section P2.
         match n with
         | NModel _ _ attrs | NColl attrs => existsb (fun kc => String.eqb k (fst kc) && level_at p' (snd kc)) attrs
         | NBin _ ln rn l r => (String.eqb k ln && level_at p' l) || (String.eqb k rn && level_at p' r)
+        | NUn _ nm c => String.eqb k nm && level_at p' c
         | _ => false
         end
     end.
@@ -135,6 +139,7 @@ Section P2.
   Fixpoint visited_hold (lv : levels) (n : node V) {struct n} : bool :=
     match n with
     | NBin _ ln rn l r => all_hold (here lv) && (visited_hold (below ln lv) l && visited_hold (below rn lv) r)
+    | NUn _ nm c => all_hold (here lv) && visited_hold (below nm lv) c
     | NModel _ _ attrs =>
         all_hold (here lv) &&
         forallb (fun kc => if is_level (snd kc) then visited_hold (below (fst kc) lv) (snd kc) else true) attrs
@@ -150,7 +155,7 @@ Section P2.
     ldef lv -> status true lv n = Ok tt ->
     status false lv n = if visited_hold lv n then Ok tt else Fit.
   Proof.
-    induction n as [q|c|ms|o ln rn l r IHl IHr|cls ctor attrs IH|attrs IH] using (level_ind V); intros lv D S.
+    induction n as [q|c|ms|o ln rn l r IHl IHr|uo unm uc IHc|cls ctor attrs IH|attrs IH] using (level_ind V); intros lv D S.
     - simpl in *. exact S.
     - reflexivity.
     - simpl in *. exact S.
@@ -160,6 +165,12 @@ Section P2.
       rewrite (check_level_defined _ (ldef_here lv D)).
       rewrite (IHl _ (ldef_below ln lv D) Sl), (IHr _ (ldef_below rn lv D) Sr), Sa.
       destruct (all_hold (here lv)), (visited_hold (below ln lv) l), (visited_hold (below rn lv) r); reflexivity.
+    - cbn [Model.status] in S. apply seq_ok in S. destruct S as [_ S].
+      apply seq_ok in S. destruct S as [Sc Sa].
+      cbn [Model.status visited_hold].
+      rewrite (check_level_defined _ (ldef_here lv D)).
+      rewrite (IHc _ (ldef_below unm lv D) Sc), Sa.
+      destruct (all_hold (here lv)), (visited_hold (below unm lv) uc); reflexivity.
     - cbn [Model.status] in S. apply seq_ok in S. destruct S as [_ S].
       apply seq_ok in S. destruct S as [S1 S]. apply seq_ok in S. destruct S as [S2 S3].
       cbn [Model.status visited_hold].
@@ -216,9 +227,10 @@ Section P2.
 
   Lemma flat_visited (n : node V) : forall lv, all_true lv -> visited_hold lv n = true.
   Proof.
-    induction n as [q|c|ms|o ln rn l r IHl IHr|cls ctor attrs IH|attrs IH] using (level_ind V); intros lv H;
+    induction n as [q|c|ms|o ln rn l r IHl IHr|uo unm uc IHc|cls ctor attrs IH|attrs IH] using (level_ind V); intros lv H;
       try reflexivity; cbn [visited_hold]; rewrite (all_true_here lv H); simpl.
     - rewrite (IHl _ (all_true_below ln lv H)), (IHr _ (all_true_below rn lv H)). reflexivity.
+    - exact (IHc _ (all_true_below unm lv H)).
     - apply forallb_forall. intros [k c] Hin. simpl. destruct (is_level c); [|reflexivity].
       rewrite Forall_forall in IH. exact (IH (k, c) Hin _ (all_true_below k lv H)).
     - apply forallb_forall. intros [k c] Hin. simpl. destruct (is_tuple c); [reflexivity|].
@@ -229,13 +241,13 @@ Section P2.
   Lemma visited_entry (n : node V) : forall lv e,
     visited_hold lv n = true -> In e lv -> level_at (fst e) n = true -> all_hold (snd e) = true.
   Proof.
-    induction n as [q|c|ms|o ln rn l r IHl IHr|cls ctor attrs IH|attrs IH] using (level_ind V);
+    induction n as [q|c|ms|o ln rn l r IHl IHr|uo unm uc IHc|cls ctor attrs IH|attrs IH] using (level_ind V);
       intros lv [p asr] Hv He Hp; simpl fst in *; simpl snd in *;
       try (destruct p; simpl in Hp; discriminate Hp).
     - cbn [visited_hold] in Hv. apply andb_true_iff in Hv. destruct Hv as [Hh Hc].
       apply andb_true_iff in Hc. destruct Hc as [Hl Hr].
       destruct p as [|k p'].
-      + apply all_hold_spec. intros a Ha. apply (proj1 (all_hold_spec _ _ _ _ _ _ _ _) Hh).
+      + apply all_hold_spec. intros a Ha. apply (proj1 (all_hold_spec _ _ _ _ _ _ _ _ _) Hh).
         apply in_here. exists ([], asr). auto.
       + simpl in Hp. apply orb_true_iff in Hp. destruct Hp as [Hp|Hp]; apply andb_true_iff in Hp; destruct Hp as [Hk Hp'];
           apply String.eqb_eq in Hk; subst k.
@@ -245,7 +257,15 @@ Section P2.
           apply in_below. exists (rn :: p', asr). auto.
     - cbn [visited_hold] in Hv. apply andb_true_iff in Hv. destruct Hv as [Hh Hc].
       destruct p as [|k p'].
-      + apply all_hold_spec. intros a Ha. apply (proj1 (all_hold_spec _ _ _ _ _ _ _ _) Hh).
+      + apply all_hold_spec. intros a Ha. apply (proj1 (all_hold_spec _ _ _ _ _ _ _ _ _) Hh).
+        apply in_here. exists ([], asr). auto.
+      + simpl in Hp. apply andb_true_iff in Hp. destruct Hp as [Hk Hp'].
+        apply String.eqb_eq in Hk. subst k.
+        apply (IHc (below unm lv) (p', asr) Hc); [|exact Hp'].
+        apply in_below. exists (unm :: p', asr). auto.
+    - cbn [visited_hold] in Hv. apply andb_true_iff in Hv. destruct Hv as [Hh Hc].
+      destruct p as [|k p'].
+      + apply all_hold_spec. intros a Ha. apply (proj1 (all_hold_spec _ _ _ _ _ _ _ _ _) Hh).
         apply in_here. exists ([], asr). auto.
       + simpl in Hp. apply existsb_exists in Hp. destruct Hp as [[k' c] [Hin Hp]]. simpl in Hp.
         apply andb_true_iff in Hp. destruct Hp as [Hk Hp']. apply String.eqb_eq in Hk. subst k'.
@@ -256,7 +276,7 @@ Section P2.
         apply in_below. exists (k :: p', asr). auto.
     - cbn [visited_hold] in Hv. apply andb_true_iff in Hv. destruct Hv as [Hh Hc].
       destruct p as [|k p'].
-      + apply all_hold_spec. intros a Ha. apply (proj1 (all_hold_spec _ _ _ _ _ _ _ _) Hh).
+      + apply all_hold_spec. intros a Ha. apply (proj1 (all_hold_spec _ _ _ _ _ _ _ _ _) Hh).
         apply in_here. exists ([], asr). auto.
       + simpl in Hp. apply existsb_exists in Hp. destruct Hp as [[k' c] [Hin Hp]]. simpl in Hp.
         apply andb_true_iff in Hp. destruct Hp as [Hk Hp']. apply String.eqb_eq in Hk. subst k'.
@@ -278,7 +298,7 @@ Section P2.
     - apply flat_visited. apply all_true_flat. exact A.
     - destruct (visited_hold lv n) eqn:Hv; [|reflexivity].
       assert (T : all_true lv).
-      { intros e a He Ha. exact (proj1 (all_hold_spec _ _ _ _ _ _ _ _) (visited_entry n lv e Hv He (W e He)) a Ha). }
+      { intros e a He Ha. exact (proj1 (all_hold_spec _ _ _ _ _ _ _ _ _) (visited_entry n lv e Hv He (W e He)) a Ha). }
       apply all_true_flat in T. congruence.
   Qed.
 
@@ -291,9 +311,10 @@ Section P2.
   (* ignoring assertions: the levels play no role at all *)
   Lemma status_ignore_levels (n : node V) : forall lv lv', status true lv n = status true lv' n.
   Proof.
-    induction n as [q|c|ms|o ln rn l r IHl IHr|cls ctor attrs IH|attrs IH] using (level_ind V); intros lv lv';
+    induction n as [q|c|ms|o ln rn l r IHl IHr|uo unm uc IHc|cls ctor attrs IH|attrs IH] using (level_ind V); intros lv lv';
       try reflexivity; cbn [Model.status].
     - rewrite (IHl (below ln lv) (below ln lv')), (IHr (below rn lv) (below rn lv')). reflexivity.
+    - rewrite (IHc (below unm lv) (below unm lv')). reflexivity.
     - f_equal. f_equal. f_equal. induction attrs as [|[k c] a IHa]; [reflexivity|].
       inversion IH as [|x y Hc Ha]; subst. simpl in Hc |- *. rewrite (IHa Ha), (Hc (below k lv) (below k lv')). reflexivity.
     - f_equal. induction attrs as [|[k c] a IHa]; [reflexivity|].
@@ -305,12 +326,13 @@ End P2.
 Section P3.
   Variable V : Type.
   Variable bin : binop -> V -> V -> V.
+  Variable un : unop -> V -> V.
   Variable bin_ok : binop -> V -> V -> bool.
   Variable ltb leb : V -> V -> bool.
   Variable of_bool : bool -> V.
-  Notation run := (run V bin bin_ok ltb leb of_bool).
-  Notation gate := (gate V bin bin_ok ltb leb of_bool).
-  Notation status := (status V bin bin_ok ltb leb of_bool).
+  Notation run := (run V bin un bin_ok ltb leb of_bool).
+  Notation gate := (gate V bin un bin_ok ltb leb of_bool).
+  Notation status := (status V bin un bin_ok ltb leb of_bool).
 
   (* guards: the construction of the instance raises nothing on these values (no division by zero), every
      assertion can be evaluated (its operands are parameters of the model, no division by zero), and every
@@ -320,7 +342,7 @@ Section P3.
 
   Theorem run_is_gate (ignore : bool) (lims : list (limit V)) (lv : levels V) (n : node V) (vec : list V) :
     levels_wf V lv n ->
-    ldef V bin bin_ok ltb leb of_bool (vec_args V n vec) lv ->
+    ldef V bin un bin_ok ltb leb of_bool (vec_args V n vec) lv ->
     constructible n vec ->
     run ignore lims lv n vec = gate ignore lims (flat V lv) n vec.
   Proof.
@@ -328,43 +350,43 @@ Section P3.
     destruct (negb (Nat.eqb (List.length vec) (prior_count V n))); [reflexivity|].
     set (args := zip_args V (ordered_ids V n) vec) in *.
     assert (S : status args true lv n = Ok tt).
-    { rewrite (status_ignore_levels V bin bin_ok ltb leb of_bool args n lv []). exact C. }
+    { rewrite (status_ignore_levels V bin un bin_ok ltb leb of_bool args n lv []). exact C. }
     destruct ignore.
     - unfold Model.instantiate. rewrite S. reflexivity.
     - destruct (negb (within V leb lims args)); [reflexivity|].
       unfold Model.instantiate.
-      rewrite (status_flat V bin bin_ok ltb leb of_bool args n lv W D S).
-      destruct (all_hold V bin bin_ok ltb leb of_bool args (flat V lv)); reflexivity.
+      rewrite (status_flat V bin un bin_ok ltb leb of_bool args n lv W D S).
+      destruct (all_hold V bin un bin_ok ltb leb of_bool args (flat V lv)); reflexivity.
   Qed.
 
   (* explicitly ignoring limits/assertions: the instance is produced whenever it can be constructed at all *)
   Theorem run_ignore_total (lims : list (limit V)) (lv : levels V) (n : node V) (vec : list V) :
     List.length vec = prior_count V n -> constructible n vec ->
-    run true lims lv n vec = VOk (inst V bin (vec_args V n vec) n).
+    run true lims lv n vec = VOk (inst V bin un (vec_args V n vec) n).
   Proof.
     intros L C. unfold Model.run, constructible, vec_args in *. rewrite (proj2 (Nat.eqb_eq _ _) L). simpl.
     unfold Model.instantiate.
-    rewrite (status_ignore_levels V bin bin_ok ltb leb of_bool _ n lv []), C. reflexivity.
+    rewrite (status_ignore_levels V bin un bin_ok ltb leb of_bool _ n lv []), C. reflexivity.
   Qed.
 
   (* the verdict of the code is never anything but: instance, fit exception, wrong length -- under the guards *)
   Theorem run_ok_iff (lims : list (limit V)) (lv : levels V) (n : node V) (vec : list V) (i : ival V) :
     levels_wf V lv n ->
-    ldef V bin bin_ok ltb leb of_bool (vec_args V n vec) lv ->
+    ldef V bin un bin_ok ltb leb of_bool (vec_args V n vec) lv ->
     constructible n vec ->
     (run false lims lv n vec = VOk i <->
      List.length vec = prior_count V n /\ within V leb lims (vec_args V n vec) = true /\
-     all_hold V bin bin_ok ltb leb of_bool (vec_args V n vec) (flat V lv) = true /\ i = inst V bin (vec_args V n vec) n).
+     all_hold V bin un bin_ok ltb leb of_bool (vec_args V n vec) (flat V lv) = true /\ i = inst V bin un (vec_args V n vec) n).
   Proof. intros W D C. rewrite (run_is_gate false lims lv n vec W D C). apply gate_ok_iff. Qed.
 
   Theorem run_rejects (lims : list (limit V)) (lv : levels V) (n : node V) (vec : list V) :
     levels_wf V lv n ->
-    ldef V bin bin_ok ltb leb of_bool (vec_args V n vec) lv ->
+    ldef V bin un bin_ok ltb leb of_bool (vec_args V n vec) lv ->
     constructible n vec ->
     List.length vec = prior_count V n ->
     (within V leb lims (vec_args V n vec) = false -> run false lims lv n vec = VLimit) /\
     (within V leb lims (vec_args V n vec) = true ->
-     all_hold V bin bin_ok ltb leb of_bool (vec_args V n vec) (flat V lv) = false ->
+     all_hold V bin un bin_ok ltb leb of_bool (vec_args V n vec) (flat V lv) = false ->
      run false lims lv n vec = VAssert).
   Proof. intros W D C L. rewrite (run_is_gate false lims lv n vec W D C). apply gate_rejects. exact L. Qed.
 
